@@ -82,6 +82,7 @@ func (b *Buffer) Put(ctx context.Context, values ...interface{}) error {
 
 	b.buffer = append(b.buffer, values...)
 	b.cond.Broadcast()
+	verifAt("buffer.put.bcast", b, 0)
 
 	return nil
 }
@@ -116,6 +117,7 @@ func (b *Buffer) NewConsumer() (Consumer, error) {
 
 	b.consumers[c] = b.offset // the consumer's initial offset becomes the start of the buffer
 	b.cond.Broadcast()
+	verifAt("buffer.newconsumer.bcast", b, 0)
 
 	return c, nil
 }
@@ -259,6 +261,7 @@ func (b *Buffer) delete(c *consumer) {
 	delete(b.consumers, c)
 	// we (may have) modified the buffer, broadcast it
 	b.cond.Broadcast()
+	verifAt("buffer.delete.bcast", b, 0)
 }
 
 // commit applies a given offset modifier to a given consumer, returning an error if the consumer does not exist
@@ -279,6 +282,7 @@ func (b *Buffer) commit(c *consumer, offset int) error {
 	b.consumers[c] = offset
 	// we (may have) modified the buffer, broadcast it
 	b.cond.Broadcast()
+	verifAt("buffer.commit.bcast", b, 0)
 
 	return nil
 }
@@ -550,6 +554,7 @@ func (b *Buffer) cleanup() {
 					if broadcast {
 						// the state will be re-checked
 						b.cond.Broadcast()
+						verifAt("buffer.timer.bcast", b, 0)
 						// clear the broadcast flag (it gets set up above too but whatever)
 						broadcast = false
 					}
@@ -612,6 +617,7 @@ func (b *Buffer) cleanupLogic() bool {
 
 	// broadcast that we changed the buffer
 	b.cond.Broadcast()
+	verifAt("buffer.cleanuplogic.bcast", b, 0)
 
 	return true
 }
